@@ -714,6 +714,42 @@ theorem regAll_mem (O : Oracles) (v : PyVal) : ∀ (fs : List FieldDecl) (f : Fi
     · simpa [hc] using hr.1
     · exact regAll_mem O v fs f hr.2 h' hc
 
+/-! ### `AllOf` over raw scalars -/
+
+theorem rawScalar_plain (f : FieldDecl) (h : rawScalar f = true) : plainScalar f = true := by
+  cases f <;> simp [rawScalar] at h <;> rfl
+
+/-- for Number / Integer / String / Enum of literals the accept test and the conformance test coincide -/
+theorem admits_eq_conforms_raw (O : Oracles) (f : FieldDecl) (v : PyVal) (h : rawScalar f = true) :
+    admits O f v = conforms O f v := by
+  cases f <;> simp [rawScalar] at h <;> simp [admits, conforms]
+
+theorem admitsAll_mem (O : Oracles) (v : PyVal) : ∀ fs : List FieldDecl, admitsAll O fs v = true →
+    ∀ f ∈ fs, admits O f v = true
+  | [], _, _, h => by simp at h
+  | g :: fs, ha, f, h => by
+    simp only [admitsAll, and_true_iff'] at ha
+    rcases List.mem_cons.mp h with rfl | h'
+    · exact ha.1
+    · exact admitsAll_mem O v fs ha.2 f h'
+
+theorem jsAllL_of_all (R S) (d : PyVal) : ∀ ss : List PyVal, (∀ s ∈ ss, jsV R S s d = true) →
+    jsAllL R S ss d = true
+  | [], _ => rfl
+  | s :: ss, h => by
+    simp only [jsAllL, and_true_iff']
+    exact ⟨h s (by simp), jsAllL_of_all R S d ss (fun t ht => h t (by simp [ht]))⟩
+
+theorem emitL_mem_inv (fx : Bool) : ∀ (fs : List FieldDecl) (s : PyVal), s ∈ emitL fx fs →
+    ∃ f ∈ fs, s = emit fx f
+  | [], _, h => by simp [emitL] at h
+  | g :: fs, s, h => by
+    simp only [emitL] at h
+    rcases List.mem_cons.mp h with rfl | h'
+    · exact ⟨g, by simp, rfl⟩
+    · obtain ⟨f, hf, hs⟩ := emitL_mem_inv fx fs s h'
+      exact ⟨f, by simp [hf], hs⟩
+
 /-! ### the main induction -/
 
 mutual
@@ -995,7 +1031,32 @@ theorem admits_field (O : Oracles) (S : String → String → Bool)
           (List.all_eq_true.mp hr.1 x hx) y hy
     | _ => simp at hc
   | .oneOf _, _, _, hf, _, _, _, _ => by simp [fragF] at hf
-  | .allOf _, _, _, hf, _, _, _, _ => by simp [fragF] at hf
+  | .allOf fs, n, v, hf, hrf, hd, hc, hr => by
+    intro j hj
+    simp only [fragF, and_true_iff'] at hf
+    simp only [RefsFaithful] at hrf
+    simp only [refDepth] at hd
+    simp only [conforms] at hc
+    simp only [regF] at hr
+    simp only [ser] at hj
+    simp only [emit]
+    rw [jsV_allOf]
+    have hplain : fs.all plainScalar = true := by
+      rw [List.all_eq_true] at hf ⊢
+      intro f hfm
+      exact rawScalar_plain f (hf.1.2 f hfm)
+    have hjv : j = v := serFirst_plain O fs v j hplain hj
+    subst hjv
+    apply jsAllL_of_all
+    intro s hs
+    obtain ⟨f, hfm, rfl⟩ := emitL_mem_inv true fs s hs
+    have hraw : rawScalar f = true := (List.all_eq_true.mp hf.1.2) f hfm
+    have hcf : conforms O f j = true := by
+      rw [← admits_eq_conforms_raw O f j hraw]
+      exact admitsAll_mem O j fs hc f hfm
+    have hrf' := regAll_mem O j fs f hr hfm hcf
+    have hadm := admits_mem O S hS D fs n hf.2 hrf hd f hfm j hcf hrf'
+    exact hadm j (ser_plain_conf O f j (rawScalar_plain f hraw) hcf hrf')
   | .notF _, _, _, hf, _, _, _, _ => by simp [fragF] at hf
   | .noneF, _, _, hf, _, _, _, _ => by simp [fragF] at hf
   | .anything, _, _, hf, _, _, _, _ => by simp [fragF] at hf
